@@ -857,6 +857,17 @@ def _idpin(prog: Program, fi: FuncInfo, kf: FuncInfo, uses_id: List[ast.Call]) -
                                 cal = prog.resolve_call(v, g)
                                 if cal and all(_cached_decorator(c) is not None for c in cal):
                                     src_ok, why = True, f"taken from the result of cached {cal[0].qual} (cache keeps it alive)"
+                                    # ... provided every caller receives the object that stays in the cache: without lock=
+                                    # cachetools computes, stores and returns per thread, so two first callers each get
+                                    # their own object and only the later one is pinned
+                                    for c in cal:
+                                        dec = _cached_decorator(c)
+                                        locked = dec is not None and any(k.arg == "lock" and not (isinstance(k.value, ast.Constant) and k.value.value is None) for k in dec.keywords)
+                                        acid = f"{c.qual}#IDPIN-ATOMIC"
+                                        if not any(i.construct == acid for i in out):
+                                            out.append(Instance("R-CACHE", acid, OK if locked else BAD,
+                                                                f"pinning cache of {c.name} publishes under a lock: every caller gets the stored object" if locked else
+                                                                f"{c.name} mints objects whose id() becomes a cache key but is memoised without lock=: two threads constructing the same new spec each receive their own object, only one of which the cache keeps alive; the other's id() can be reused while it is still a transformer-cache key", c.where()))
                             if src_ok:
                                 out.append(Instance("R-CACHE", cid, OK, f"self.{attr} {why}", g.where(n)))
                             else:
